@@ -598,6 +598,9 @@ impl FunctionCompiler<'_> {
             } => {
                 let continue_block = self.continues[&label];
 
+                // the blocks inside of the loop are being left, so their defers have to run
+                self.run_defers_until(label);
+
                 self.builder.ins().jump(continue_block, &[]);
             }
             hir::Stmt::Continue { label: None, .. } => unreachable!(),
@@ -620,32 +623,8 @@ impl FunctionCompiler<'_> {
     fn break_to_label(&mut self, value: Option<Value>, label: hir::ScopeId) {
         let exit_block = self.exits[&label];
 
-        // run all the defers from here, backwards to the one we are breaking out of
-
-        let mut used_frames = Vec::new();
-
-        // todo: don't do popping
-        while let Some(frame) = self.defer_stack.last().cloned() {
-            // the exit block of every Expr::Block contains the instructions for running
-            // the defers. This break instruction jumps to that exit block.
-            // therefore, we only need to insert extra defer handling for everything OTHER
-            // than the block we are breaking to.
-            if let Some(id) = frame.id {
-                if id == label {
-                    break;
-                }
-            }
-
-            // do it in reverse to make sure later defers can still rely on the allocations of
-            // previous defers
-            for defer in frame.defers.iter().rev() {
-                self.compile_expr(*defer);
-            }
-
-            used_frames.push(self.defer_stack.pop().unwrap());
-        }
-
-        self.defer_stack.extend(used_frames.into_iter().rev());
+        // run all the defers from here, backwards to (and including) the one we are breaking out of
+        self.run_defers_until(label);
 
         if let Some(value) = value {
             self.builder
@@ -654,6 +633,34 @@ impl FunctionCompiler<'_> {
         } else {
             self.builder.ins().jump(exit_block, &[]);
         };
+    }
+
+    /// Compiles the defers that have been reached so far of every block between here and `label`,
+    /// including the defers of `label` itself (a loop doesn't have any).
+    ///
+    /// The exit block of an `Expr::Block` does *not* run any defers (someone jumping there might
+    /// not have reached all of them), so everyone who jumps there has to run them first.
+    fn run_defers_until(&mut self, label: hir::ScopeId) {
+        let mut used_frames = Vec::new();
+
+        // todo: don't do popping
+        while let Some(frame) = self.defer_stack.last().cloned() {
+            // the frame is popped while its defers are being compiled,
+            // so that a jump inside of a defer doesn't run them again
+            used_frames.push(self.defer_stack.pop().unwrap());
+
+            // do it in reverse to make sure later defers can still rely on the allocations of
+            // previous defers
+            for defer in frame.defers.iter().rev() {
+                self.compile_expr(*defer);
+            }
+
+            if frame.id == Some(label) {
+                break;
+            }
+        }
+
+        self.defer_stack.extend(used_frames.into_iter().rev());
     }
 
     fn store_default_in_memory(&mut self, expected_ty: Intern<Ty>, memory: MemoryLoc) {
@@ -1392,6 +1399,22 @@ impl FunctionCompiler<'_> {
                     .flatten();
 
                 if !no_eval {
+                    // the end of the block was reached, so all of its defers were reached too.
+                    // anyone else who jumps to the exit (a `break`) runs the defers they've reached
+                    // by themselves
+                    if value.is_some() || tail_expr.is_some() || expr_ty.can_be_created_from_nothing()
+                    {
+                        let frame = self.defer_stack.pop().expect("we just pushed this");
+
+                        // do it in reverse to make sure later defers can still rely on the
+                        // allocations of previous defers
+                        for defer in frame.defers.iter().rev() {
+                            self.compile_expr(*defer);
+                        }
+
+                        self.defer_stack.push(frame);
+                    }
+
                     if let Some(value) = value {
                         self.builder
                             .ins()
@@ -1461,19 +1484,10 @@ impl FunctionCompiler<'_> {
                 self.builder.switch_to_block(exit_block);
                 self.builder.seal_block(exit_block);
 
-                // unwind our defers
+                // the defers have already been run by everyone who jumped here
 
                 let defer_frame = self.defer_stack.pop().expect("we just pushed this");
-
-                if !no_eval || scope_id.is_some() {
-                    debug_assert_eq!(defer_frame.id, scope_id);
-
-                    // do it in reverse to make sure later defers can still rely on the allocations of
-                    // previous defers
-                    for defer in defer_frame.defers.iter().rev() {
-                        self.compile_expr(*defer);
-                    }
-                }
+                debug_assert_eq!(defer_frame.id, scope_id);
 
                 if final_ty.into_real_type().is_some() {
                     Some(self.builder.block_params(exit_block)[0])
@@ -1603,7 +1617,16 @@ impl FunctionCompiler<'_> {
                 self.builder.switch_to_block(body_block);
                 self.builder.seal_block(body_block);
 
+                // loops don't have defers of their own, but `break` and `continue` have to know
+                // which defers belong to blocks inside of the loop
+                self.defer_stack.push(DeferFrame {
+                    id: self.world_bodies[self.loc.file()].block_to_scope_id(expr),
+                    defers: Vec::new(),
+                });
+
                 self.compile_expr(body);
+
+                self.defer_stack.pop().expect("we just pushed this");
 
                 self.builder.ins().jump(header_block, &[]);
 
